@@ -290,34 +290,7 @@ def body_normal_form(I, X, which="list", n=3):
 
 import datetime as _dtmod
 
-
-class SymDatetime(_dtmod.datetime):
-    """a datetime whose calendar fields are solver integers (a real datetime subclass, so that
-    isinstance tests in the code under test behave): timetuple() is computed from the fields
-    with the proleptic Gregorian weekday formula; tzinfo is UTC or None"""
-
-    __symex_carrier__ = True
-
-    def __new__(cls, fields, aware=True):
-        self = super().__new__(cls, 2000, 1, 1, tzinfo=_dtmod.timezone.utc if aware else None)
-        self.f = tuple(fields)
-        return self
-
-    def timetuple(self):
-        y, m, d, hh, mi, ss = self.f
-        before = 0
-        for k, n in enumerate((31, 28, 31, 30, 31, 30, 31, 31, 30, 31, 30, 31), start=1):
-            if m > k:
-                before = before + n
-        leap = (y % 4 == 0) & ((y % 100 != 0) | (y % 400 == 0))
-        if (m > 2) and leap:
-            before = before + 1
-        y1 = y - 1
-        ordinal = d + before + 365 * y1 + y1 // 4 - y1 // 100 + y1 // 400
-        return (y, m, d, hh, mi, ss, (ordinal + 6) % 7, before + d, -1)
-
-    def replace(self, tzinfo=None):
-        return SymDatetime(self.f, aware=tzinfo is not None)
+from harness.dtmodel import SymDatetime, valid_day
 
 
 def body_http_date(I, X, aware=True, month=1):
@@ -329,15 +302,9 @@ def body_http_date(I, X, aware=True, month=1):
     m = month   # enumerated (12 obligations); everything else is solver-quantified
     d = X.int("d", 1, 31)
     hh, mi, ss = X.int("hh", 0, 23), X.int("mi", 0, 59), X.int("ss", 0, 59)
-    leap = pand(y % 4 == 0, por(y % 100 != 0, y % 400 == 0))
-    dim = 31
-    if bool(por(peq(m, 4), peq(m, 6), peq(m, 9), peq(m, 11))):
-        dim = 30
-    elif bool(peq(m, 2)):
-        dim = 29 if bool(leap) else 28
-    X.assume(d <= dim)
+    valid_day(X, y, m, d)
     if X.symbolic:
-        dt = SymDatetime((y, m, d, hh, mi, ss), aware)
+        dt = SymDatetime((y, m, d, hh, mi, ss), _dtmod.timezone.utc if aware else None)
     else:
         dt = _dtmod.datetime(y, m, d, hh, mi, ss, tzinfo=_dtmod.timezone.utc if aware else None)
     text = I.call(http.http_date, (dt,))
